@@ -150,7 +150,11 @@ class SimExecutor(Executor):
         pos = self._pos(subroutine_id, address)
         if isinstance(instr, ins.core.InitInstruction):
             if not self.qs.is_product(pos):
-                raise HarnessLimit("init of an entangled qubit")
+                # No program of any check initialises a qubit that is entangled (fresh qubits only), so this means that a
+                # physical qubit was handed out while another virtual qubit still uses it.  An ordinary exception: the
+                # executor reports it as a fault of this instruction and the checks judge it like any other fault.
+                raise RuntimeError("init of a physical qubit that is still entangled with a live qubit "
+                                   "(the physical qubit was handed out while in use)")
             self.qs.reset(pos)
             self.gate_trace.append(("init", address))
         else:
